@@ -4,7 +4,8 @@ set -e
 cd "$(dirname "$0")"
 export GOFLAGS=-mod=mod GOPROXY=off
 python3 lib/gen_main.py
-(cd lean && lake build Dawgs dawgsmodel)
+python3 lib/regen_all.py
+(cd lean && lake build Dawgs dawgsmodel dawgsmodelg)
 cp /repo/go.sum harness/go.sum
 (cd harness && go build -tags verif -o bin/harness .)
 echo setup-ok
